@@ -58,6 +58,7 @@ fn main() {
     match domain.as_str() {
         "cfg" => bddrun::run_bdd(&lines, &bddrun::Opts { oracle, nvars }, &mut out),
         "table" => standalone::run_table(&lines, oracle, &mut out),
+        "ntable" => standalone::run_ntable(&lines, oracle, &mut out),
         "cache" | "kcache" => standalone::run_cache(&lines, oracle, &mut out),
         "raw" => standalone::run_raw(&lines, oracle, &mut out),
         "eda" => standalone::run_eda(&lines, oracle, &mut out),
